@@ -1487,6 +1487,9 @@ class SymDict:
             c = z3.simplify(z3.And(g, self._keq(kk, k)))
             if z3.is_false(c):
                 continue
+            if z3.is_true(c):          # an unconditional write of this key replaces whatever was stored before
+                res, pres = v, z3.BoolVal(True)
+                continue
             res = v if res is None else ite(c, v, res)
             pres = z3.Or(pres, c)
         return res, pres
@@ -1672,7 +1675,15 @@ UNB = object()
 
 
 def issym(c):
-    return isinstance(c, (SymInt, SymBool))
+    """symbolic guard?  A proxy whose term is a literal constant (structure bits written as constants) is treated as concrete: the
+    converted branch is then executed as the plain `if`"""
+    if not isinstance(c, (SymInt, SymBool)):
+        return False
+    t = c.t
+    if z3.is_true(t) or z3.is_false(t) or z3.is_bv_value(t):
+        return False
+    t = z3.simplify(t)
+    return not (z3.is_true(t) or z3.is_false(t) or z3.is_bv_value(t))
 
 
 def snap(loc, names):
